@@ -419,6 +419,31 @@ func (e *ssaEval) instr(fr *frame, ins ssa.Instruction) {
 		}
 	case *ssa.Convert:
 		a := e.val(fr, x.X)
+		if a.k == svList {
+			// []byte → string of known bytes
+			if bt, ok := x.Type().Underlying().(*types.Basic); ok && bt.Info()&types.IsString != 0 {
+				if el, ok := e.elems(a); ok {
+					buf := make([]byte, 0, len(el))
+					for _, v := range el {
+						if v.k != svInt {
+							buf = nil
+							break
+						}
+						buf = append(buf, byte(v.i))
+					}
+					if buf != nil || len(el) == 0 {
+						set(x, sv{k: svString, s: string(buf)})
+						return
+					}
+				}
+			}
+		}
+		if a.k == svNil {
+			if bt, ok := x.Type().Underlying().(*types.Basic); ok && bt.Info()&types.IsString != 0 {
+				set(x, sv{k: svString})
+				return
+			}
+		}
 		if a.k == svSym && intSize(x.Type()) > 0 && intSize(x.X.Type()) > intSize(x.Type()) {
 			// a narrowing conversion of a symbolic value truncates
 			set(x, term(narrowTag(x.Type()), a))
